@@ -10,12 +10,14 @@ PID = "C03"
 LEVEL = "proof"
 GRAD_T = Tup(GrammarT, List(Tup(Nat, List(RealW))), Tup(Bool, Nat), List(QQ), List(Tup(Nat, List(Tup(QQ, QQ)))))
 CF = CheckFn("grad-real", "Model.Dual", "grad_check_real", GRAD_T)
-CHECKFNS = [CF]
+CF_ALIAS = CheckFn("leaf-alias", "Model.LeafAlias", "alias_check", Tup(List(Nat), List(Nat)))
+CHECKFNS = [CF, CF_ALIAS]
 ASSUMPTIONS = [
     "the derivative of the sum-product of a recursive FGG (a power series in the weights with non-negative coefficients, finite at the given point) is the limit of the derivatives of its Kleene iterates = the epsilon part of the least fixed point over the dual numbers (termwise differentiation inside the domain of convergence; real analysis, not formalised); for non-recursive FGGs nothing is assumed: the sum-product is a polynomial and the dual-number value is its formal derivative (proved)",
     "recursive grammars: the epsilon part is judged against a certified enclosure computed in exact rational arithmetic at the dual carrier (Kleene from below, a verified m-step pre-fixed point from above, tightened to 2^-27 relative); grammars without a tight certified enclosure (divergent / near-critical) are discarded and counted",
     "Log semiring read through exp: the implementation receives log(w); the observed gradient is compared with w * dZ/dw / Z; cases with log Z = -inf at a start cell are discarded and counted (derivative undefined)",
     "float results are compared inside Coq with rtol 1e-6, atol 1e-9 (iterative methods stop at tol = 1e-10)",
+    "torch accumulates gradients per leaf storage: modelled by leaf_grad / observed_grads (Model/LeafAlias.v); 'same storage' is observed as equality of untyped_storage().data_ptr() of the factors' physical tensors (torch runtime, trusted); factorize_fgg is assumed to preserve the sum-product (its own property) when its result is judged against the unfactorized grammar",
     "autograd's accumulation across components is torch runtime: modelled as reverse accumulation over the SCC DAG (backward_nonrec with J, backward_nonrec_log with J_log) and tied to the dual-number derivative per case (verdict 20, exact rational equality) for all non-recursive cases; proved equal to it for Real (C03_nonrecursive_gradient)",
 ]
 METHODS = ["fixed-point", "newton", "linear"]
@@ -888,6 +890,7 @@ def run(tier, seed):
     # read from the objects that path returned, a second evaluation of the same object after an in-place update
     prng = random.Random(seed * 13 + 5); n_path = 27 if tier == "quick" else 360; k = 0; tries = 0
     if os.environ.get("VERIF_N"): n_path = int(os.environ["VERIF_N"])
+    alias_vals = []; alias_meta = []
     path_hist = {}; kinds["path_alias_checked"] = 0; kinds["path_equal_pairs_with_different_gradients"] = 0
     while k < n_path and tries < 60 * n_path:
         tries += 1
@@ -927,11 +930,7 @@ def run(tier, seed):
         path_hist[path] = path_hist.get(path, 0) + 1
         for f in spec["features"]: feats[f] = feats.get(f, 0) + 1
         kinds["path_alias_checked"] += 1
-        bad = alias_introduced(pre, post)
-        if bad:
-            violations.append(Violation("distinct factors share ONE weight storage after %s although the caller supplied separate tensors (their .grad accumulates the sum of both derivatives; an in-place update of one changes the other)" % path,
-                                        case=dict(case0, storage_before=pre, storage_after=post, aliased_positions=bad), observed=post, expected=pre, call=call,
-                                        corr="C03 / corr:weight storage partition", failing_input_found=False))
+        alias_vals.append((list(pre), list(post))); alias_meta.append((case0, call, path))
         for rnd, (cur, status, warned, grads, z) in enumerate(rounds):
             if status == "valueerror": kinds["valueerror"] += 1; continue
             if status == "nograd": kinds["nograd"] += 1
@@ -946,6 +945,17 @@ def run(tier, seed):
                 kinds["path_equal_pairs_with_different_gradients"] += sum(1 for grp in equal_groups(cur) for a in grp for b_ in grp
                                                                           if a < b_ and a in grads and b_ in grads and grads[a] != grads[b_])
     hist["path"] = path_hist
+    # the storage partitions before / after each path, judged by alias_check (extracted code; all of them again in the kernel)
+    acodes = run_ocaml(CF_ALIAS, alias_vals)
+    if alias_vals:
+        cc = run_coq(CF_ALIAS, alias_vals, tag="c03alias", timeout=600)
+        if list(cc) != list(acodes): raise BuildError("extracted code and vm_compute disagree on leaf-alias: %r vs %r" % (acodes, cc))
+    for (pre, post), (case0, call, path), c in zip(alias_vals, alias_meta, acodes):
+        if c == 0: continue
+        violations.append(Violation("distinct factors share ONE weight storage after %s although the caller supplied separate tensors (each one's .grad then holds the SUM of both derivatives: C03_shared_storage_sum; an in-place update of one changes the other)" % path,
+                                    case=dict(case0, storage_before=pre, storage_after=post, aliased_positions=alias_introduced(pre, post)), observed=post, expected=pre, call=call,
+                                    oracle="alias_check (C03_alias_check_exact, C03_alias_check_preserves_separate_storage, C03_separate_storage_own_gradient)",
+                                    corr="C03 / corr:weight storage partition", failing_input_found=c == 1))
     t_impl = time.time()
     codes, nk = run_model_parallel(vals, seed, coq_sample=3 if tier == "quick" else 12)
     # the command-line runs were working in the background all along; judge their outputs now
@@ -982,7 +992,7 @@ def run(tier, seed):
                                     corr="C03 / corr:backward", failing_input_found=c in (1, 4), call=call))
     s0 = meta[0] if meta else None
     cov = dict(evaluations=len(vals), distinct_nontrivial=len(distinct),
-               rule="random FGG specs (<= 3 nonterminals, domains <= 2; non-recursive, and linearly / non-linearly recursive damped by 1/4 or 1/8; most nonterminals given a base rule) with strictly positive dyadic weights (every 5th spec keeps zero weights, Real only), every 4th with a factor used in no rule; x {Real, Log} x method rotating over fixed-point/newton/linear (tol 1e-10, kmax 400) x cotangent (plain sum | random signed dyadic tensor); every entry of every factor's weights.grad (absent = 0) judged in Coq against the dual-number derivative; a few Real cases additionally through bin/sum_product.py (-G, -w/-g/-e, -o); distinct_nontrivial = distinct (spec, semiring, method, cotangent, route) with some non-zero gradient entry",
+               rule="random FGG specs (<= 3 nonterminals, domains <= 2; non-recursive, and linearly / non-linearly recursive damped by 1/4 or 1/8; most nonterminals given a base rule) with strictly positive dyadic weights (every 5th spec keeps zero weights, Real only), every 4th with a factor used in no rule; x {Real, Log} x method rotating over fixed-point/newton/linear (tol 1e-10, kmax 400) x cotangent (plain sum | random signed dyadic tensor); every entry of every factor's weights.grad (absent = 0) judged in Coq against the dual-number derivative; a few Real cases additionally through bin/sum_product.py (-G, -w/-g/-e, -o); every 6th recursive spec a forced RECURSIVE component with a nonterminal of arity 2 or 3 and asymmetric Jacobian blocks (six shapes: left / axis-swapping / non-linear matrix recursion, mixed arity 2 x 1, arity 3 plain and axis-rotating; all three methods, Real and Log); stream 'paths' (27 quick / 360 thorough histories): grammars in which DISTINCT factors have EQUAL weight tables (five forced shapes incl. size-1 domains, nullary factors and an arity-2 nonterminal; random specs with tables copied between same-shape factors) obtained through json_to_fgg(fgg_to_json), FGG.copy (once, twice), FGG.from_hrg + new_finite_factor (tensors | nested python lists), factorize_fgg, conjoin_hrgs with a primed skeleton grammar + from_hrg (judged against the grammar read back from the result), and two factors bound to ONE tensor by the caller (judged against the grammar with the two labels merged); requires_grad_ on the factors of the RETURNED object, per-factor weights.grad judged by the same oracle; every other history evaluates the same object a second time after halving one factor in place under no_grad; the partition of the factors by physical storage before / after the path is judged by alias_check (Coq); distinct_nontrivial = distinct (spec, semiring, method, cotangent, route) with some non-zero gradient entry",
                case_kinds=kinds, histogram=hist, feature_histogram=feats, gradient_entries_checked=entries,
                conclusive=conclusive, conclusive_by_kind=conclusive_by, inconclusive_discarded=inconclusive, log_minus_inf_discarded=logzero, kernel_reevaluated=nk,
                samples=[dict(case=s0[0], observed=s0[2])] if s0 else [],
@@ -990,7 +1000,7 @@ def run(tier, seed):
     return cov, violations
 
 OPEN_ITEMS = [
-    "proved (Props/C03.v, 38 closed theorems; generic in the semiring, instances for [0, inf] with the laws discharged by Proofs/SemiringLaws.v): dual numbers are a commutative / ordered / star semiring; Leibniz rule; C03_dual_is_derivative; C03_J_is_formal_derivative (+ partial environments, Jx / J_inputs); C03_scc_vjp_onestep; C03_nonrecursive_gradient (+ _ereal); C03_tree_derivative (+ _ereal), C03_expected_count_numerator; C03_encl2_sound; C03_check_oracle_sound, C03_entry_interval_sound (+ _ereal, no premises), C03_start_bounds_sound; C03_log (J_log as it is now = diag(1/F) J diag(x), only guard: finite values), C03_log_ereal, C03_log_partial, C03_log_dead_rule_now; about the code before b84d904: C03_log_old_guarded, C03_log_old_dead_rule_refuted; C03_zero_weight_derivative_witness",
+    "proved (Props/C03.v, 43 closed theorems; generic in the semiring, instances for [0, inf] with the laws discharged by Proofs/SemiringLaws.v): dual numbers are a commutative / ordered / star semiring; Leibniz rule; C03_dual_is_derivative; C03_J_is_formal_derivative (+ partial environments, Jx / J_inputs); C03_scc_vjp_onestep; C03_nonrecursive_gradient (+ _ereal); C03_tree_derivative (+ _ereal), C03_expected_count_numerator; C03_encl2_sound; C03_check_oracle_sound, C03_entry_interval_sound (+ _ereal, no premises), C03_start_bounds_sound; C03_log (J_log as it is now = diag(1/F) J diag(x), only guard: finite values), C03_log_ereal, C03_log_partial, C03_log_dead_rule_now; about the code before b84d904: C03_log_old_guarded, C03_log_old_dead_rule_refuted; C03_zero_weight_derivative_witness; leaf aliasing: C03_alias_check_exact, C03_alias_check_preserves_separate_storage, C03_separate_storage_own_gradient, C03_shared_storage_sum, C03_shared_storage_witness",
     "open (analysis, not formalised): derivative of the limit = limit of the derivatives of the Kleene iterates for recursive grammars (termwise differentiation of a power series with non-negative coefficients inside its domain of convergence); proved up to: the epsilon part of every sufficiently late dual Kleene iterate lies in the certified interval",
     "open (tier B): the Log analogue of C03_nonrecursive_gradient (reverse accumulation with J_log = d log Z / d log w) is checked per case (verdict 20: backward_nonrec_log vs the dual-number oracle, exact rational equality) but not proved; log_softmax's inf branch is not modelled (finite values)",
     "open (tier B): linearly recursive grammars -- derivative of the rational least solution equals the implicit-function result of backward; the backward pass of iteratively solved components (multi_solve on the transposed system) is not modelled, it is judged by the enclosure oracle",
@@ -1005,8 +1015,9 @@ def replay(path):
     if c.get("via", "api").startswith("path-"):
         rounds, pre, post = run_path_case(spec, sr, c["method"], cot, c["plain"], c["path"], c["ids"], c["case_seed"], c["inplace"])
         bad = alias_introduced(pre, post)
-        print("storage ids before", pre, "after", post, "aliasing introduced at positions", bad)
-        rc = 1 if bad else 0
+        acode = run_ocaml(CF_ALIAS, [(list(pre), list(post))])[0]
+        print("storage ids before", pre, "after", post, "aliasing introduced at positions", bad, "alias_check verdict", acode)
+        rc = 1 if acode != 0 else 0
         for rnd, (cur, status, warned, grads, z) in enumerate(rounds):
             print("round", rnd, "status", status, "warned", warned, "z", z)
             if status == "valueerror" or warned: continue
@@ -1028,7 +1039,7 @@ def replay(path):
 
 MANIFEST = dict(
     level="proof",
-    text="Coq: the dual numbers over a commutative (ordered) semiring are a commutative (ordered) semiring; running the sum-product definitions over them yields the ordinary value in the first component and the formal derivative in the epsilon component (Leibniz rule for rule values, recurrence eps Z_{k+1} = J(Z_k) eps Z_k + dF/dw, sum over derivation trees and over the occurrences of the weight entry); the code's J (leave one edge out) is that Jacobian, the one-step backward pass is its vector-Jacobian product and reverse accumulation over a non-recursive grammar's components equals the dual-number derivative; J_log (nan_to_num per contribution) = diag(1/F) J diag(x) on finite values; instances for [0, inf] with the semiring laws proved. Correspondence: every entry of every factor's weights.grad after sum_product(...).backward() (Real and Log, three methods, random cotangents, also via bin/sum_product.py and with j_precompute=True) is judged inside Coq against the dual-number derivative (exact for non-recursive grammars, certified enclosure for recursive ones).",
+    text="Coq: the dual numbers over a commutative (ordered) semiring are a commutative (ordered) semiring; running the sum-product definitions over them yields the ordinary value in the first component and the formal derivative in the epsilon component (Leibniz rule for rule values, recurrence eps Z_{k+1} = J(Z_k) eps Z_k + dF/dw, sum over derivation trees and over the occurrences of the weight entry); the code's J (leave one edge out) is that Jacobian, the one-step backward pass is its vector-Jacobian product and reverse accumulation over a non-recursive grammar's components equals the dual-number derivative; J_log (nan_to_num per contribution) = diag(1/F) J diag(x) on finite values; instances for [0, inf] with the semiring laws proved. Per-leaf accumulation (two factors in one storage both read the sum of their derivatives; separate storages: each its own) and the exactness of the storage-partition check. Correspondence: every entry of every factor's weights.grad after sum_product(...).backward() (Real and Log, three methods, random cotangents, also via bin/sum_product.py, with j_precompute=True, on recursive components of arity 2 / 3, and on grammars with equal weight tables obtained through every constructor / loader / copy path incl. a second evaluation after an in-place update) is judged inside Coq against the dual-number derivative (exact for non-recursive grammars, certified enclosure for recursive ones).",
     note="Trusted: Coq kernel, extraction cross-checked by vm_compute, harness; for recursive grammars the interchange of limit and derivative (analysis) is assumed; grammars without a tight certified enclosure are discarded (counted).",
     technique="Coq proof (dual numbers / Leibniz / reverse = forward accumulation) + certified-enclosure oracle on implementation gradients",
     design_ref="DESIGN.md section 6, C03")
